@@ -108,6 +108,13 @@ def task_fn(run, t):
     return (yield from run.interp(t))
 
 
+def make_closure(run, t):
+    @asynq.asynq()
+    def closure_fn():
+        return (yield from run.interp(t))
+    return closure_fn
+
+
 class Holder(object):
     def __init__(self, run, t):
         self.run = run
@@ -176,6 +183,13 @@ def aio_fn(run, t):
     return run.leaf_result(t)
 
 
+@asynq.asynq()
+def plain_fn(run, t):       # an @asynq() function WITHOUT a yield (no asyncio_fn either): still lazy - it runs when awaited
+    run.ev(t, 1)
+    run.ev(t, 0)
+    return run.leaf_result(t)
+
+
 class Run(object):
     serial = [0]
 
@@ -196,17 +210,20 @@ class Run(object):
         self.flavour = {}
         self.delay = {}
         self.holders = {}
+        self.closures = {}       # functions made by ONE factory: the same code object, different closure cells
         for t in range(1, n + 1):
             segs = prog["tasks"][t - 1]["segs"]
-            opts = ["fn", "method", "proxy", "dedup", "dedupm", "retry", "lru"]
+            opts = ["fn", "method", "proxy", "dedup", "dedupm", "retry", "lru", "closure", "closure"]
             if len(segs) == 1 and t != root:
-                opts += ["aio", "aio"]
+                opts += ["aio", "aio", "plain", "plain"]
                 if segs[0]["term"]["k"] == "return":
                     opts.append("const")
             self.flavour[t] = rng.choice(opts) if seed else "fn"
             self.delay[t] = rng.randint(0, 3)
             if self.flavour[t] in ("method", "dedupm"):
                 self.holders[t] = Holder(self, t)
+            if self.flavour[t] == "closure":
+                self.closures[t] = make_closure(self, t)
 
     def ev(self, t, k):
         if self.recording:
@@ -266,6 +283,8 @@ class Run(object):
         f = self.flavour[t]
         if f == "fn":
             return task_fn, (self, t)
+        if f == "closure":
+            return self.closures[t], ()
         if f == "method":
             return self.holders[t].body, ()
         if f == "proxy":
@@ -280,6 +299,8 @@ class Run(object):
             return retry_fn, (self, t)
         if f == "lru":
             return lru_fn, (self, t)
+        if f == "plain":
+            return plain_fn, (self, t)
         return aio_fn, (self, t)
 
     def call_async(self, t):        # what a body writes: child.asynq(...)
